@@ -259,6 +259,9 @@ impl SubCheck for Sub {
                 let (day, ns) = (wall.div_euclid(DAY) as i64, wall.rem_euclid(DAY));
                 let (cl, nt) = classify(&z, wall);
                 o = o.class(cl).nontrivial(nt || c.given != Given::None);
+                if ns == 0 && z.instants(wall).is_empty() {
+                    o = o.class("wall:skipped-local-midnight");
+                }
                 let (dis, off, given, match_minutes) = match c.route {
                     Route::DateTimeToZoned => (c.dis, OffOpt::Ignore, Given::None, false),
                     Route::DateToZoned => (Disamb::Compatible, OffOpt::Ignore, Given::None, false),
@@ -572,6 +575,16 @@ pub fn case() -> BoxedStrategy<Case> {
                     1 => tr_t + hi + delta,
                     _ => tr_t + (lo + hi) / 2 + delta,
                 }
+            };
+            // the wall-clock routes, one case in two where the data allow it: exactly the local midnight that lies strictly
+            // inside the skipped stretch of the chosen transition (an explicit 00:00 is an ordinary time there, moved by the
+            // gap; only an absent time means "start of day")
+            let t = if route != Route::Getters && oa > ob && dns % 2 == 0 {
+                let (lo, hi) = (tr_t + ob as i128 * S, tr_t + oa as i128 * S);
+                let midnight = (lo.div_euclid(DAY) + 1) * DAY;
+                if midnight < hi { midnight } else { t }
+            } else {
+                t
             };
             let t = t.clamp(-MAX_INSTANT + 2 * DAY, MAX_INSTANT - 2 * DAY);
             // a real zone is only known to the oracle inside its window: stay at least 2 days inside it
